@@ -344,6 +344,17 @@ int cmd_gssvx(const case_t *c)
         }
         free(xt); free(yt);
     }
+    {   /* per-column patterns of B: 'z' an all-zero column, 't' a tiny column (scaled by 2^-44), 'g' as generated */
+        const char *cp = cstr(c, "colpat", ""); size_t lp = strlen(cp);
+        for (int_t j = 0; j < nrhs && lp; ++j) {
+            char ch = cp[(size_t)j % lp];
+            for (int_t i = 0; i < n; ++i) {
+                elem_t *e = &S.b[(size_t)j * S.ldb + i];
+                if (ch == 'z') *e = MKE(0, 0);
+                else if (ch == 't') { ref_t v = E2R(*e) * 5.6843418860808015e-14L; *e = R2E(v); }
+            }
+        }
+    }
     memcpy(S.b0, S.b, (size_t)S.ldb * nrhs * sizeof(elem_t));
     for (size_t i = 0; i < nx; ++i) S.x[i] = MKE(XSENT_RE, XSENT_IM);
     S.R = xmalloc((n + 1) * sizeof(real_t)); S.C = xmalloc((n + 1) * sizeof(real_t));
